@@ -133,6 +133,17 @@ impl NumericParser {
             None => return false,
             Some(v) => *v,
         };
+        if NumericParser::is_small_unit(n) || NumericParser::is_large_unit(n) {
+            // a unit can not directly follow a separator: "1,千" or "2.百"
+            if self.has_hanging_point {
+                self.error_state = Error::POINT;
+                return false;
+            }
+            if self.has_comma && !self.check_comma() {
+                self.error_state = Error::COMMA;
+                return false;
+            }
+        }
         if NumericParser::is_small_unit(n) {
             self.tmp.shift_scale(-n);
             if !self.subtotal.add(&mut self.tmp) {
